@@ -79,6 +79,9 @@ def main():
         if old.get("check"):
             hist.append(old["check"])
         out["check_history"] = hist
+        for k in ("suite_passes_with_change", "suite_line"):
+            if k not in out and k in old:
+                out[k] = old[k]  # an earlier evaluation ran the suite; --no-suite re-evaluations keep its verdict
     json.dump(out, open(mp, "w"), indent=1)
     run(f"rm -f {VERIF}/replays/C*.json")
     print(json.dumps({k: out[k] for k in ("id", "property", "confirmed", "demo_unchanged_exit", "demo_patched_exit")} | {"suite": out.get("suite_passes_with_change"), "check": out["check"]}, indent=1))
